@@ -558,7 +558,11 @@ pub fn tampers(spec: &Spec, rng: &mut Rng, all_bits: bool, out: &mut Vec<Input>)
             out.push(inp("t-drop-pair", "reject", s.encode_with_sig(&sig_item), kind));
         }
         // another key's public key in the record, signature by the original key
-        let other = IndKey::gen(rng, kind);
+        // (a different key: the pool of edge keys is small)
+        let mut other = IndKey::gen(rng, kind);
+        while other.public() == spec.key.public() {
+            other = IndKey::gen(rng, kind);
+        }
         let mut s = spec.clone();
         if let Some(i) = s
             .items
